@@ -16,6 +16,9 @@ void gen_def(rng_t *r, struct jls_signal_def_s *d, uint16_t signal_id, uint16_t 
     d->data_type = t->code;
     static const uint32_t rates[] = {1, 10, 1000, 48000, 1000000, 2000000, 1000000000};
     d->sample_rate = RNG_PICK(r, rates);
+    /* fixed-point exponent q (bits 16..23 of the data type) on integer types: storage, summaries' entry size and
+     * every reader result are those of the base type */
+    if (t->kind != 2 && rng_chance(r, 1, 6)) d->data_type |= (uint32_t) rng_range(r, 1, 30) << 16;
     switch (cls) {
         case DEF_DEFAULTS: break;
         case DEF_MINIMAL:
